@@ -68,8 +68,38 @@ func c16Source(m *machine.M, page uint8) [160]uint8 {
 	return s
 }
 
+// c16Idle: no transfer is requested for n machine cycles. OAM (rewritten by the guest with a pattern of its own, the
+// LCD being off) must keep that pattern and the window must stay readable: the copy engine does nothing unasked.
+func c16Idle(l *explore.Local, m *machine.M, n int, desc string) *explore.Fail {
+	for i := 0; i < 160; i++ {
+		m.Map.Write(0xfe00+uint16(i), uint8(i*7+3))
+	}
+	for cyc := 1; cyc <= n; cyc++ {
+		m.Hardware()
+		if got := m.Map.Read(0xfea0); got != 0x00 {
+			return explore.Failf("a DMA transfer runs although none was requested", "%s: FEA0 reads %02x %d cycles after the last transfer ended", desc, got, cyc)
+		}
+		if cyc%61 == 0 || cyc == n {
+			for i := 0; i < 160; i++ {
+				if got := m.Map.Read(0xfe00 + uint16(i)); got != uint8(i*7+3) {
+					return explore.Failf("OAM changes although no DMA transfer was requested", "%s: OAM[%d]=%02x, the guest wrote %02x; %d cycles after the last transfer ended", desc, i, got, uint8(i*7+3), cyc)
+				}
+			}
+		}
+	}
+	l.Trans(n)
+	return nil
+}
+
 func c16Check(l *explore.Local, _ struct{}, c c16Case) *explore.Fail {
 	m := c16Machine(c.RAMEn, c.Cart)
+	if c.Kind == "idle-from-power-on" {
+		if f := c16Idle(l, m, c.At, "no transfer since power-on"); f != nil {
+			return f
+		}
+		l.Eval(1)
+		return nil
+	}
 	if c.Kind == "lcdon" {
 		// the display is running: the transfer starts c.At cycles after the LCD was switched on (every phase
 		// of visible and v-blank lines); only the hardware is stepped, so no CPU access can arm the OAM bug
@@ -165,6 +195,11 @@ func c16Check(l *explore.Local, _ struct{}, c c16Case) *explore.Fail {
 	if got := m.Map.Read(0xfea0); got != 0 {
 		return explore.Failf("FEA0-FEFF does not read 00 after the transfer", "%s: %02x", desc, got)
 	}
+	if c.Kind == "idle" {
+		if f := c16Idle(l, m, c.At, desc); f != nil {
+			return f
+		}
+	}
 	l.Eval(1)
 	l.Outcome(uint64(done)<<16 | uint64(c.Page) | uint64(want[1])<<24)
 	return nil
@@ -173,11 +208,11 @@ func c16Check(l *explore.Local, _ struct{}, c c16Case) *explore.Fail {
 func init() {
 	register("C16", "model_checking", func(c *Ctx) {
 		if c.R != nil {
-			c.R.Rule = "on an MBC1+RAM cartridge with position-dependent contents in ROM, VRAM (LCD off), cartridge RAM, WRAM: (basic) every source page 00-F1 x RAM enabled/disabled: FE00, FE9F, FEA0, FEFF read FF after every cycle until completion, completion within 162 cycles, then OAM equals the 160 source bytes (E0-F1 through the WRAM mirror); (restart) a second FF46 write after every cycle 1-162 with 6 x 6 page pairs; (restart-rewrite) the same with the same page, its echo alias or a neighbour as second source and one source byte changed just before the second request: OAM must hold the second source as it was then; (rewrite) one source byte changed after every cycle 0-165 for byte indices {0,1,79,80,158,159}: the byte must hold the value it had when copied (old or new accepted within one cycle of the copy); (lcdon) with the display running, a transfer started at every cycle position of six lines (hardware stepped without the CPU)"
+			c.R.Rule = "on an MBC1+RAM cartridge with position-dependent contents in ROM, VRAM (LCD off), cartridge RAM, WRAM: (basic) every source page 00-F1 x RAM enabled/disabled: FE00, FE9F, FEA0, FEFF read FF after every cycle until completion, completion within 162 cycles, then OAM equals the 160 source bytes (E0-F1 through the WRAM mirror); (restart) a second FF46 write after every cycle 1-162 with 6 x 6 page pairs; (restart-rewrite) the same with the same page, its echo alias or a neighbour as second source and one source byte changed just before the second request: OAM must hold the second source as it was then; (rewrite) one source byte changed after every cycle 0-165 for byte indices {0,1,79,80,158,159}: the byte must hold the value it had when copied (old or new accepted within one cycle of the copy); (idle) after a transfer, and from power-on without one, the guest rewrites OAM and 66,000 (thorough 270,000) machine cycles pass without a request: FEA0 reads 00 in every cycle and OAM keeps the guest's bytes; (lcdon) with the display running, a transfer started at every cycle position of six lines (hardware stepped without the CPU)"
 			c.R.Assumptions = []string{"completion is observed through FEA0 (00 when OAM is accessible, FF during a transfer)", "ROM-only cartridges are not used here (their A0-BF sources belong to C09/C11)"}
 		}
 		pages := []uint8{0x00, 0x80, 0xc0, 0xdf, 0xe0, 0xf1}
-		explore.Product(c.R, "dma", explore.PartOpt{Bound: "every cycle of every transfer observed", Domain: "pages 00-F1 on an MBC1 cartridge, 8 pages on MBC3 (clock running / halted), MBC5 and ROM-only cartridges; restarts at every cycle; rewrites at every cycle; LCD on, transfer started at every cycle of lines 0, 1, 70, 143, 144, 153"},
+		explore.Product(c.R, "dma", explore.PartOpt{Bound: "every cycle of every transfer observed", Domain: "pages 00-F1 on an MBC1 cartridge, 8 pages on MBC3 (clock running / halted), MBC5 and ROM-only cartridges; restarts at every cycle; rewrites at every cycle; LCD on, transfer started at every cycle of lines 0, 1, 70, 143, 144, 153; 66,000 (thorough 270,000) quiet cycles after a transfer and from power-on"},
 			func(yield func(c16Case) bool) {
 				for p := 0; p <= 0xf1; p++ {
 					for _, en := range []bool{true, false} {
@@ -195,6 +230,21 @@ func init() {
 						if !yield(c16Case{Kind: "basic", Page: p, RAMEn: true, Cart: cart}) {
 							return
 						}
+					}
+				}
+				// long quiet stretches after a transfer and from power-on (past any 16-bit cycle count; thorough: past 2^18)
+				idle := 66_000
+				if c.Thorough() {
+					idle = 270_000
+				}
+				for cart := 0; cart <= 4; cart += 4 {
+					for _, p := range []uint8{0xc0, 0x00} {
+						if !yield(c16Case{Kind: "idle", Page: p, RAMEn: true, Cart: cart, At: idle}) {
+							return
+						}
+					}
+					if !yield(c16Case{Kind: "idle-from-power-on", RAMEn: true, Cart: cart, At: idle}) {
+						return
 					}
 				}
 				for _, p1 := range pages {
